@@ -720,6 +720,18 @@ func execute(cs Case) (res Result) {
 		}
 	}
 	total := srv.IdleTimeout + srv.ReadTimeout + srv.WriteTimeout + 5*time.Second
+	if cs.Conv == "play-tcp-stalled" {
+		// virtual time stands still during the attack: the blocked media write and every answer to the
+		// stalled reader can each take one WriteTimeout before the next request is even looked at, and the
+		// idle deadline of the connection is re-armed after each of them
+		n := 1
+		for i := range steps {
+			if steps[i].Kind == "stall" {
+				n = len(steps) - i
+			}
+		}
+		total += time.Duration(n) * srv.WriteTimeout
+	}
 	for k := 0; k < 4; k++ {
 		if !advance(total / 4) {
 			return failf("hang", "library not quiescent (hang detector) while virtual time advances")
@@ -735,8 +747,12 @@ func execute(cs Case) (res Result) {
 		c.stalled = false // the timeouts have passed: look at what the server did with the connection
 		c.poll()
 		if !c.closed && !c.eof {
-			return failf("connection-not-closed", "hostile connection %d still open %v of virtual time after the last byte (IdleTimeout %v, ReadTimeout %v, WriteTimeout %v); %d bytes unparsed, %d messages received",
-				k, total, srv.IdleTimeout, srv.ReadTimeout, srv.WriteTimeout, len(c.rx), len(c.msgs))
+			if f := os.Getenv("C11_STACKS"); f != "" {
+				os.WriteFile(f, dumpStacks(), 0o644) //nolint:errcheck
+			}
+			return failf("connection-not-closed", "hostile connection %d still open %v of virtual time after the last byte (IdleTimeout %v, ReadTimeout %v, WriteTimeout %v); %d bytes unparsed, %d messages received; library goroutines: "+fmt.Sprint(libGoroutines()),
+				k, total, srv.IdleTimeout, srv.ReadTimeout, srv.WriteTimeout, len(c.rx), len(c.msgs)) // + who is still there
+
 		}
 		c.close()
 	}
